@@ -1,7 +1,7 @@
 # C03 -- no network input can corrupt memory, hang the parser or over-reserve (parser-level kernels)
 STREAM = '/repo/src/common/stream.cc'
 CUR_ROOTS = ['_ZN8Pistache12StreamCursor7advanceEm', '_ZNK8Pistache12StreamCursor3eolEv', '_ZNK8Pistache12StreamCursor4nextEv',
-  '_ZNK8Pistache12StreamCursor3eofEv', '_ZNK8Pistache12StreamCursor7currentEv', '_ZNK8Pistache12StreamCursor9remainingEv',
+  '_ZNK8Pistache12StreamCursor3eofEv', '_ZNK8Pistache12StreamCursor7currentEv', '_ZNK8Pistache12StreamCursor9remainingEv', '_ZNK8Pistache12StreamCursor6offsetEv', '_ZNK8Pistache12StreamCursor6offsetEm', '_ZNK8Pistache12StreamCursor4diffEm',
   '_ZN8Pistache9match_rawEPKvmRNS_12StreamCursorE', '_ZN8Pistache12match_stringEPKcmRNS_12StreamCursorENS_15CaseSensitivityE',
   '_ZN8Pistache13match_literalEcRNS_12StreamCursorENS_15CaseSensitivityE',
   '_ZN8Pistache11match_untilESt16initializer_listIcERNS_12StreamCursorENS_15CaseSensitivityE',
